@@ -7,27 +7,49 @@ import unified_planning as up
 import unified_planning.io.anml_writer as aw
 import unified_planning.io.pddl_writer as pw
 from unified_planning.environment import Environment
-from unified_planning.exceptions import UPException
+import unified_planning.io.ma_pddl_writer as mw
+from unified_planning.exceptions import UPException, UPProblemDefinitionError
 from unified_planning.io import ANMLWriter, PDDLWriter
-from unified_planning.model import (DurativeAction, Event, Fluent, InstantaneousAction, Object, Parameter, Problem,
-                                    Process, Variable)
+from unified_planning.model import (DurativeAction, Event, Fluent, GlobalStartTiming, InstantaneousAction, Object,
+                                    Parameter, Problem, Process, Variable)
 from unified_planning.model.contingent.contingent_problem import ContingentProblem
+from unified_planning.model.contingent.sensing_action import SensingAction
+from unified_planning.model.htn import HierarchicalProblem, Method, Task
+from unified_planning.model.htn.task import Subtask
+from unified_planning.model.multi_agent import Agent, MultiAgentProblem
 
 ID = "C38"
 GEN = ["Keywords"]
+EXTRA_PROPS = ["UPVerif.Props.C38Select"]
 CORR_NAME = "chosen-names-and-lookups"
-RULE = ("three case shapes over problems with adversarial ASCII identifiers (case variants of one another, PDDL/ANML "
-        "keywords, symbols, leading digits, empty names, names equal to the mangled or counter-suffixed forms of other "
-        "names; elements of different kinds may share a name, which the environment flag error_used_name=False allows): "
+RULE = ("four case shapes over problems with adversarial ASCII identifiers (case variants of one another, PDDL/HDDL/ANML "
+        "keywords of every keyword table in lower, upper and mixed case, symbols, leading digits, empty names, names equal "
+        "to the mangled or counter-suffixed forms of other names; elements of different kinds may share a name, which the "
+        "environment flag error_used_name=False allows). The PROBLEM varies over both sides of every condition that decides "
+        "which keyword table a writer reserves: Problem / ContingentProblem (with sensing actions) / HierarchicalProblem "
+        "(tasks, methods, subtasks), continuous or discrete time, with or without durative actions, temporal only through "
+        "timed effects, only through timed goals, trajectory constraints, processes/events; the name pool of a case is "
+        "seeded with keywords of the tables on both sides. "
         "'pddl' = an explicit sequence of PDDLWriter._get_mangled_name calls (random order, repetitions, possibly "
         "partial) interleaved with get_item_named/get_pddl_name probes on a writer of the real problem, optionally "
         "followed by get_domain()/get_problem(); 'pddlw' = the writer's own traversal (get_domain + get_problem), "
-        "compared on _get_pddl_name of every element; 'anml' = ANMLWriter.get_problem(), compared on the final "
-        "names_mapping. Non-trivial = some element had to be renamed.")
+        "compared on _get_pddl_name of every element; both also compare the optional keywords the writer selected "
+        "(pddl_keywords minus the general table) with the model's selection, computed by the conditions extracted from "
+        "PDDLWriter.__init__ on the view of the real problem (classes, lengths of the attributes __init__ reads); "
+        "'maw' = MAPDDLWriter on a MultiAgentProblem (fixed keyword set), compared on the selected keywords and on "
+        "_get_pddl_name of every element; 'anml' = ANMLWriter.get_problem() (also discrete time / timed effects), "
+        "compared on the final names_mapping. Non-trivial = some element had to be renamed.")
 ASSUMPTIONS = [
     "ASCII identifiers only (printable 0x20..0x7e); Python's str.lower()/regex classes on non-ASCII text are not modelled",
-    "the keywords a PDDL name must avoid are those of the PDDL fragment the problem needs (general + PDDL+ / PDDL3 / temporal "
-    "/ contingent sets selected by the problem's features), as the writer's design states; ANML: ANML_KEYWORDS",
+    "the keywords a PDDL name must avoid are those of the fragments of PDDL that the text written for the problem USES: the "
+    "general table always; PDDL+ iff the problem has processes/events; PDDL3 iff it has trajectory constraints; temporal iff "
+    "some action is durative (whatever the time model) or there is a timed effect (written `(at t …)`); contingent iff it is "
+    "a ContingentProblem; HDDL iff it is a HierarchicalProblem; and every `:word` that occurs in the written text. The oracle "
+    "decides this from the problem's structure and from the text, never from the writer's own selection; ANML: ANML_KEYWORDS",
+    "MA-PDDL ('maw'): agents have benign names (agent names are written by other code than the renaming this property is "
+    "about); needed keywords = general table, and the temporal one iff an agent has a durative action; only _get_pddl_name, the keyword set and the otn/nto maps are "
+    "observed, not how ma_pddl_writer composes agent-qualified names",
+    "HTN: subtask identifiers are written verbatim by the writer (not renamed); the generator uses identifiers s0, s1, …",
     "PDDL names are compared case-insensitively (PDDL is case-insensitive), ANML names exactly",
     "ANML: fluents are boolean with user-typed parameters, action parameters are user-typed, no quantified expressions "
     "(numeric types get type expressions, not identifiers; quantifier variables are named by the same function, covered by "
@@ -35,18 +57,24 @@ ASSUMPTIONS = [
     "elements of one kind have pairwise different names (the library refuses anything else, whatever error_used_name says)",
 ]
 MODELLED = [
-    "modelled by hand (tied by correspondence): _get_pddl_name, PDDLWriter.__init__ keyword selection, _get_mangled_name, "
-    "get_item_named, get_pddl_name, _is_valid_anml_name, _get_anml_valid_name, _get_anml_name, the pre-registration loops "
-    "and the order of _get_anml_name calls in ANMLWriter._write_problem; regenerated from source: the five PDDL keyword sets, "
+    "modelled by hand (tied by correspondence): _get_pddl_name, _get_mangled_name, get_item_named, get_pddl_name, "
+    "_is_valid_anml_name, _get_anml_valid_name, _get_anml_name, the pre-registration loops and the order of _get_anml_name "
+    "calls in ANMLWriter._write_problem, the meaning of the four condition forms of the keyword selection (KwCond.eval); "
+    "regenerated from source: the six PDDL keyword sets, the CONDITIONS under which PDDLWriter.__init__ adds each of them "
+    "(every `if … : self.pddl_keywords |= …`), the composition of MA_PDDL_KEYWORDS, the `:word`s the writer can emit, "
     "ANML_KEYWORDS, both INITIAL_LETTER maps and defaults, the character classes of the five regular expressions",
-    "Python dict (insertion-ordered, keyed by the elements' __eq__/__hash__), re, str.lower on ASCII; Problem.has_name and "
-    "ProblemKind.has_hierarchical_typing are inputs of the model (their values are read from the real problem and cross-checked)",
+    "Python dict (insertion-ordered, keyed by the elements' __eq__/__hash__), re, str.lower on ASCII, isinstance as membership "
+    "in type(x).__mro__; Problem.has_name, ProblemKind.has_hierarchical_typing and the problem view (class names, "
+    "len(problem.processes/events/trajectory_constraints/timed_effects/timed_goals), discrete_time) are inputs of the model "
+    "(read from the real problem and cross-checked against the payload)",
 ]
 BUDGET_S = {"quick": 60, "thorough": 400}
 
-ACTION_CLS = ("InstantaneousAction", "DurativeAction")
+ACTION_CLS = ("InstantaneousAction", "DurativeAction", "SensingAction")
 TRANS_CLS = ("Process", "Event")
-GLOBAL_CLS = ("_UserType", "Fluent", "Object") + ACTION_CLS
+HTN_CLS = ("Task", "Method")
+GLOBAL_CLS = ("_UserType", "Fluent", "Object") + ACTION_CLS + HTN_CLS
+OWNER_CLS = ACTION_CLS + TRANS_CLS + HTN_CLS + ("Fluent",)
 
 # ---------------------------------------------------------------------------------------------------------
 # generator
@@ -60,6 +88,23 @@ KEYWORDS = ["and", "at", "start", "end", "all", "over", "object", "type", "actio
 SYMBOLS = ["a-b", "a b", "a.b", "a?b", "?x", "a;b", "a(b)", "a'b", 'a"b', "a\\b", "#", "", " ", "a-", "-", "_", "a:b",
            "x,y", "[z]", "a+b", "a~", "a=b", "$v", "a/b", "{", "|"]
 DIGITS = ["3d", "9", "0_a", "-a", "_a", "1", "00", "2-x", "7 up"]
+
+# the harness' OWN reading of which words belong to which fragment of PDDL / HDDL (from the language definitions and from
+# what the writer's text contains — not from the library's tables): used to seed the name pool of a case with keywords of
+# the tables on BOTH sides of the conditions the case exercises
+FRAG_WORDS = {
+    "temporal": ["at", "start", "end", "over", "all", "duration", "condition", "durative-action"],
+    "plus": ["process", "event"],
+    "pddl3": ["always", "sometime", "within", "at-most-once", "sometime-after", "sometime-before", "always-within",
+              "hold-during", "hold-after", "constraints", "preference", "preferences", "is-violated"],
+    "contingent": ["observe", "oneof", "unknown"],
+    "hddl": ["task", "method", "htn", "subtasks", "ordered-subtasks", "ordering", "tasks", "ordered-tasks", "constraints",
+             "hierarchy", "method-preconditions"],
+    "general": ["functions", "predicates", "numeric-fluents", "action-costs", "duration-inequalities", "requirements",
+                "parameters", "precondition", "effect", "types", "constants", "objects", "init", "metric", "typing",
+                "durative-actions", "timed-initial-literals", "equality", "strips", "increase", "assign", "total-cost"],
+}
+FRAGS = ["temporal", "plus", "pddl3", "contingent", "hddl", "general"]
 
 
 def _case_variant(rng, s):
@@ -101,8 +146,24 @@ _NONASCII = [False]
 UNICODE_WORDS = ["\u00c9vier", "\u00f1and\u00fa", "\u00e0_table", "\u00d6lwechsel", "\u65e5\u672c", "\u03b1\u03b2", "x\u00e9", "\u00df", "\u0130stanbul", "\u01c5"]
 
 
-def gen_names(rng, k):
+def _kw_variant(rng, w):
+    r = rng.random()
+    if r < 0.5:
+        return w
+    if r < 0.7:
+        return w.upper()
+    if r < 0.85:
+        return w.capitalize()
+    return "".join(c.upper() if rng.random() < 0.5 else c for c in w)
+
+
+def gen_names(rng, k, focus=()):
+    """`focus`: fragments whose keywords are put into the pool first (lower, upper and mixed case)"""
     pool = []
+    for fr in focus:
+        for _ in range(rng.choice([1, 2, 2, 3])):
+            pool.append(_kw_variant(rng, rng.choice(FRAG_WORDS[fr])))
+    k += len(pool)
     while len(pool) < k:
         r = rng.random()
         if _NONASCII[0] and r < 0.35:
@@ -165,10 +226,58 @@ def predicted_names(items):
     return out
 
 
-def gen_pddl_items(rng, pool, allow_standalone=True):
+def gen_spec(rng):
+    """WHICH problem the items live in — the dimensions that decide which keyword tables a writer reserves:
+    cls P = Problem, C = ContingentProblem, H = HierarchicalProblem; discrete_time; number of trajectory constraints,
+    of timed effects (distinct timings) and of timed goals"""
+    r = rng.random()
+    cls = "P" if r < 0.55 else "C" if r < 0.7 else "H"
+    return {"cls": cls, "discrete": rng.random() < 0.3, "ntraj": 1 if rng.random() < 0.2 else 0,
+            "ntil": rng.choice([0, 0, 0, 0, 1, 1, 2]), "ntg": 1 if rng.random() < 0.1 else 0,
+            # whether durative actions may occur at all (so that "temporal only through timed effects / goals" is common)
+            "durative": rng.random() < 0.6}
+
+
+def gen_focus(rng, spec):
+    """fragments whose keywords are put into the name pool: the ones the spec is about, whichever side it is on"""
+    focus = []
+    if rng.random() < 0.6:
+        focus.append("temporal")
+    if spec["cls"] == "H" and rng.random() < 0.8 or rng.random() < 0.12:
+        focus.append("hddl")
+    if spec["cls"] == "C" and rng.random() < 0.7 or rng.random() < 0.08:
+        focus.append("contingent")
+    if spec["ntraj"] and rng.random() < 0.7 or rng.random() < 0.08:
+        focus.append("pddl3")
+    if rng.random() < 0.15:
+        focus.append("plus")
+    if rng.random() < 0.25:
+        focus.append("general")
+    return focus
+
+
+def spec_sexp(spec):
+    return ["prob", spec["cls"], B(spec["discrete"]), str(spec["ntraj"]), str(spec["ntil"]), str(spec["ntg"])]
+
+
+def _spec(e):
+    """(prob CLS D NTRAJ NTIL NTG), or the legacy (flags PLUS PDDL3 TEMPORAL CONTINGENT) of older corpus lines (PLUS and
+    TEMPORAL were always determined by the items)"""
+    if e[0] == "flags":
+        return {"cls": "C" if e[4] == "T" else "P", "discrete": False, "ntraj": 1 if e[2] == "T" else 0, "ntil": 0, "ntg": 0}
+    return {"cls": e[1], "discrete": e[2] == "T", "ntraj": int(e[3]), "ntil": int(e[4]), "ntg": int(e[5])}
+
+
+def has_nullary_bool(items):
+    return any(it[0] == "Fluent" and it[2] == "bool" and not any(p[0] == "Parameter" and p[3] == str(i) for p in items)
+               for i, it in enumerate(items))
+
+
+def gen_pddl_items(rng, pool, spec=None, allow_standalone=True):
     """items: [cls, name, extra...]; see module doc of Drv/C38.lean"""
+    spec = spec or {"cls": "P", "durative": True, "ntraj": 0, "ntil": 0, "ntg": 0}
     items = []
-    used = {"t": set(), "f": set(), "o": set(), "a": set(), "n": set()}
+    used = {"t": set(), "f": set(), "o": set(), "a": set(), "n": set(), "k": set(), "m": set()}
     ntypes = rng.choice([0, 1, 1, 2, 3])
     hier = ntypes >= 2 and rng.random() < 0.6
     for i in range(ntypes):
@@ -179,25 +288,48 @@ def gen_pddl_items(rng, pool, allow_standalone=True):
             father = str(rng.randrange(i))
         items.append(["_UserType", n, father])
     types = list(range(ntypes))
-    for _ in range(rng.choice([0, 1, 2, 3, 4])):
+    want0 = spec["ntraj"] or spec["ntil"] or spec["ntg"]
+    keep0 = None
+    for k in range(rng.choice([0, 1, 2, 3, 4]) or (1 if want0 else 0)):
         n = _pick_name(rng, pool, used["f"])
         used["f"].add(n)
-        items.append(["Fluent", n, rng.choice(["bool", "bool", "int"])])
+        ty = rng.choice(["bool", "bool", "int"])
+        if want0 and keep0 is None and (ty == "bool" or k == 0):
+            ty, keep0 = "bool", len(items)      # this fluent gets no parameters: timed effects/goals and constraints use it
+        items.append(["Fluent", n, ty])
+    acls = ["InstantaneousAction", "InstantaneousAction", "DurativeAction" if spec["durative"] else "InstantaneousAction"]
+    if spec["cls"] == "C":
+        acls.append("SensingAction")
     for _ in range(rng.choice([0, 1, 2, 3])):
         n = _pick_name(rng, pool, used["a"])
         used["a"].add(n)
-        items.append([rng.choice(["InstantaneousAction", "InstantaneousAction", "DurativeAction"]), n])
-    if rng.random() < 0.2:
+        items.append([rng.choice(acls), n])
+    if rng.random() < 0.2 and not spec.get("notrans"):
         for _ in range(rng.choice([1, 2])):
             n = _pick_name(rng, pool, used["n"])
             used["n"].add(n)
             items.append([rng.choice(TRANS_CLS), n])
+    tasks = []
+    if spec["cls"] == "H":
+        for _ in range(rng.choice([0, 1, 1, 2])):
+            n = _pick_name(rng, pool, used["k"])
+            used["k"].add(n)
+            tasks.append(len(items))
+            items.append(["Task", n])
+    methods = []
     if types:
         for _ in range(rng.choice([0, 1, 2, 3, 4])):
             n = _pick_name(rng, pool, used["o"])
             used["o"].add(n)
             items.append(["Object", n, str(rng.choice(types))])
-        owners = [i for i, it in enumerate(items) if it[0] in ACTION_CLS + TRANS_CLS + ("Fluent",)]
+    if tasks:
+        for _ in range(rng.choice([0, 1, 1, 2])):
+            n = _pick_name(rng, pool, used["m"])
+            used["m"].add(n)
+            methods.append(len(items))
+            items.append(["Method", n, str(rng.choice(tasks))])
+    if types:
+        owners = [i for i, it in enumerate(items) if it[0] in OWNER_CLS and it[0] != "Method" and i != keep0]
         pkeys, owned = set(), {}
         for _ in range(rng.choice([0, 1, 2, 3, 5])):
             n = rng.choice(pool)
@@ -214,6 +346,24 @@ def gen_pddl_items(rng, pool, allow_standalone=True):
                 continue
             pkeys.add((n, t))
             items.append(["Parameter", n, str(t), owner])
+        # a method's first parameters are the arguments of the task it achieves (same types, in order); then extras
+        for m in methods:
+            task = int(items[m][2])
+            want = [int(p[2]) for p in items if p[0] == "Parameter" and p[3] == str(task)]
+            want += [rng.choice(types) for _ in range(rng.choice([0, 0, 1, 2]))]
+            mine = set()
+            for t in want:
+                n = rng.choice(pool)
+                tries = 0
+                while (n in mine or (n, t) in pkeys) and tries < 6:
+                    n, tries = rng.choice(pool), tries + 1
+                if n in mine or (n, t) in pkeys:
+                    n = "mp%d" % len(pkeys)
+                    while n in mine or (n, t) in pkeys:
+                        n += "x"
+                mine.add(n)
+                pkeys.add((n, t))
+                items.append(["Parameter", n, str(t), str(m)])
         if allow_standalone:
             vkeys = set()
             for _ in range(rng.choice([0, 0, 1, 2])):
@@ -224,14 +374,11 @@ def gen_pddl_items(rng, pool, allow_standalone=True):
     return items
 
 
-def gen_flags(rng, items):
-    plus = any(it[0] in TRANS_CLS for it in items)
-    temporal = any(it[0] == "DurativeAction" for it in items)
-    has0 = any(it[0] == "Fluent" and it[2] == "bool" and
-               not any(p[0] == "Parameter" and p[3] == str(i) for p in items) for i, it in enumerate(items))
-    pddl3 = has0 and rng.random() < 0.25
-    contingent = rng.random() < 0.15
-    return ["flags", B(plus), B(pddl3), B(temporal), B(contingent)]
+def fit_spec(spec, items):
+    """timed effects / goals and trajectory constraints are stated on a parameterless boolean fluent"""
+    if not has_nullary_bool(items):
+        spec = dict(spec, ntraj=0, ntil=0, ntg=0)
+    return spec
 
 
 def B(x):
@@ -239,10 +386,12 @@ def B(x):
 
 
 def gen_pddl_case(rng):
-    pool = gen_names(rng, rng.choice([3, 4, 6, 8]))
-    items = gen_pddl_items(rng, pool)
+    spec = gen_spec(rng)
+    pool = gen_names(rng, rng.choice([3, 4, 6, 8]), gen_focus(rng, spec))
+    items = gen_pddl_items(rng, pool, spec)
     while not items:
-        items = gen_pddl_items(rng, pool)
+        items = gen_pddl_items(rng, pool, spec)
+    spec = fit_spec(spec, items)
     n = len(items)
     cover = rng.random() < 0.7
     order = list(range(n))
@@ -264,16 +413,28 @@ def gen_pddl_case(rng):
     for _ in range(rng.choice([0, 1, 2])):
         ops.append(["pname", str(rng.randrange(n))])
     write = cover and rng.random() < 0.8
-    return ["pddl", gen_flags(rng, items), B(predicted_hier(items)), ["names"] + predicted_names(items),
+    return ["pddl", spec_sexp(spec), B(predicted_hier(items)), ["names"] + predicted_names(items),
             ["items"] + items, ["ops"] + ops, ["write", B(write)]]
 
 
 def gen_pddlw_case(rng):
-    pool = gen_names(rng, rng.choice([3, 4, 6, 8]))
-    items = gen_pddl_items(rng, pool, allow_standalone=False)
+    spec = gen_spec(rng)
+    pool = gen_names(rng, rng.choice([3, 4, 6, 8]), gen_focus(rng, spec))
+    items = gen_pddl_items(rng, pool, spec, allow_standalone=False)
     while not items:
-        items = gen_pddl_items(rng, pool, allow_standalone=False)
-    return ["pddlw", gen_flags(rng, items), ["items"] + items]
+        items = gen_pddl_items(rng, pool, spec, allow_standalone=False)
+    return ["pddlw", spec_sexp(fit_spec(spec, items)), ["items"] + items]
+
+
+def gen_maw_case(rng):
+    """a MultiAgentProblem: no processes/events/tasks; fluents go to the environment or to an agent, actions to an agent"""
+    spec = {"cls": "P", "durative": rng.random() < 0.6, "ntraj": 0, "ntil": 0, "ntg": 0, "notrans": True}
+    focus = [f for f in ("temporal", "pddl3", "general", "hddl") if rng.random() < (0.6 if f in ("temporal", "pddl3") else 0.15)]
+    pool = gen_names(rng, rng.choice([3, 4, 6]), focus)
+    items = gen_pddl_items(rng, pool, spec, allow_standalone=False)
+    while not items:
+        items = gen_pddl_items(rng, pool, spec, allow_standalone=False)
+    return ["maw", ["agents", str(rng.choice([1, 2]))], ["items"] + items]
 
 
 def gen_anml_case(rng):
@@ -303,23 +464,28 @@ def gen_anml_case(rng):
     for _ in range(rng.choice([0, 1, 2, 3])):
         n = _pick_name(rng, pool, used)
         used.add(n)
-        actions.append([rng.choice(ACTION_CLS), n, params()])
+        actions.append([rng.choice(("InstantaneousAction", "DurativeAction")), n, params()])
     objects, used = [], set()
     for _ in range(rng.choice([0, 1, 2, 3, 4])):
         n = _pick_name(rng, pool, used)
         used.add(n)
         objects.append([n, str(rng.randrange(ntypes))])
-    return ["anml", ["types"] + types, ["fluents"] + fluents, ["actions"] + actions, ["objects"] + objects]
+    # the ANML keyword set is fixed: the time model and timed effects must make no difference
+    nullary = any(len(f[2]) == 1 for f in fluents)
+    opts = ["opts", B(rng.random() < 0.3), str(rng.choice([0, 0, 1, 2]) if nullary else 0)]
+    return ["anml", ["types"] + types, ["fluents"] + fluents, ["actions"] + actions, ["objects"] + objects, opts]
 
 
 def cases(rng, tier):
-    n = 450 if tier == "quick" else 40000
+    n = 450 if tier == "quick" else 30000
     for _ in range(n):
         r = rng.random()
-        if r < 0.45:
+        if r < 0.42:
             yield gen_pddl_case(rng)
-        elif r < 0.65:
+        elif r < 0.66:
             yield gen_pddlw_case(rng)
+        elif r < 0.74:
+            yield gen_maw_case(rng)
         else:
             yield gen_anml_case(rng)
 
@@ -341,17 +507,23 @@ def search(rng, tier):
 # building the real problems
 # ---------------------------------------------------------------------------------------------------------
 
-def _flags(e):
-    return [x == "T" for x in e[1:5]]
+PROBLEM_CLS = {"P": Problem, "C": ContingentProblem, "H": HierarchicalProblem}
 
 
-def build_pddl(flags, items):
+def _nullary_bool(items, objs):
+    for i, it in enumerate(items):
+        if it[0] == "Fluent" and it[2] == "bool" and not objs[i].signature:
+            return objs[i]
+    return None
+
+
+def build_pddl(spec, items):
     """-> (problem, objs) with objs[i] the real model element of item i"""
-    plus, pddl3, temporal, contingent = flags
+    from collections import OrderedDict
     env = Environment()
     env.error_used_name = False
     tm, em = env.type_manager, env.expression_manager
-    problem = (ContingentProblem if contingent else Problem)("prob", env)
+    problem = PROBLEM_CLS[spec["cls"]]("prob", env)
     objs = [None] * len(items)
     for i, it in enumerate(items):
         if it[0] == "_UserType":
@@ -360,9 +532,11 @@ def build_pddl(flags, items):
         if it[0] in ("Parameter", "Variable"):
             objs[i] = (Parameter if it[0] == "Parameter" else Variable)(it[1], objs[int(it[2])], env)
 
+    def owned_idx(i):
+        return [k for k, p in enumerate(items) if p[0] == "Parameter" and p[3] == str(i)]
+
     def owned(i):
-        from collections import OrderedDict
-        return OrderedDict((p[1], objs[int(p[2])]) for p in items if p[0] == "Parameter" and p[3] == str(i))
+        return OrderedDict((items[k][1], objs[int(items[k][2])]) for k in owned_idx(i))
     for i, it in enumerate(items):
         c = it[0]
         if c == "_UserType":
@@ -374,6 +548,9 @@ def build_pddl(flags, items):
         elif c == "InstantaneousAction":
             objs[i] = InstantaneousAction(it[1], _parameters=owned(i), _env=env)
             problem.add_action(objs[i])
+        elif c == "SensingAction":
+            objs[i] = SensingAction(it[1], _parameters=owned(i), _env=env)
+            problem.add_action(objs[i])
         elif c == "DurativeAction":
             objs[i] = DurativeAction(it[1], _parameters=owned(i), _env=env)
             objs[i].set_fixed_duration(1)
@@ -384,14 +561,114 @@ def build_pddl(flags, items):
         elif c == "Event":
             objs[i] = Event(it[1], _parameters=owned(i), _env=env)
             problem.add_event(objs[i])
+        elif c == "Task":
+            objs[i] = Task(it[1], _parameters=owned(i), _env=env)
+            problem.add_task(objs[i])
         elif c == "Object":
             objs[i] = Object(it[1], objs[int(it[2])], env)
             problem.add_object(objs[i])
-    if pddl3:
+    for i, it in enumerate(items):
+        if it[0] == "Method":
+            m = Method(it[1], _parameters=owned(i), _env=env)
+            task = int(it[2])
+            k = len(owned_idx(task))
+            m.set_task(objs[task], *[m.parameter(items[q][1]) for q in owned_idx(i)[:k]])
+            objs[i] = m
+            problem.add_method(m)
+    if spec["cls"] == "H":
+        # initial task network: one subtask per task / action all of whose parameter types have an object
+        n = 0
         for i, it in enumerate(items):
-            if it[0] == "Fluent" and it[2] == "bool" and not objs[i].signature:
-                problem.add_trajectory_constraint(em.Always(em.FluentExp(objs[i])))
-                break
+            if it[0] in ("Task",) + ACTION_CLS:
+                args = []
+                for q in owned_idx(i):
+                    os_ = [objs[k] for k, o in enumerate(items) if o[0] == "Object" and o[2] == items[q][2]]
+                    if not os_:
+                        args = None
+                        break
+                    args.append(em.ObjectExp(os_[0]))
+                if args is not None:
+                    problem.task_network.add_subtask(Subtask(objs[i], *args, ident="s%d" % n, _env=env))
+                    n += 1
+    f0 = _nullary_bool(items, objs)
+    if f0 is not None:
+        for _ in range(spec["ntraj"]):
+            problem.add_trajectory_constraint(em.Always(em.FluentExp(f0)))
+        for k in range(spec["ntil"]):
+            problem.add_timed_effect(GlobalStartTiming(5 * (k + 1)), em.FluentExp(f0), em.TRUE() if k % 2 == 0 else em.FALSE())
+        for k in range(spec["ntg"]):
+            problem.add_timed_goal(GlobalStartTiming(7 + k), em.FluentExp(f0))
+    if spec["discrete"]:
+        problem.discrete_time = True
+    return problem, objs
+
+
+def _mro(x):
+    return [c.__name__ for c in type(x).__mro__ if c is not object]
+
+
+def problem_view(problem):
+    """what PDDLWriter.__init__ can read of the problem (the model's ProblemView), read off the REAL problem"""
+    return ["view", ["mro"] + _mro(problem), ["actions"] + [_mro(a) for a in problem.actions],
+            ["lens", str(len(problem.processes)), str(len(problem.events)), str(len(problem.trajectory_constraints)),
+             str(len(problem.timed_effects)), str(len(problem.timed_goals))], B(problem.discrete_time)]
+
+
+def view_matches(problem, spec, items):
+    """the real problem is the one the payload describes (a harness self-check)"""
+    return (type(problem) is PROBLEM_CLS[spec["cls"]] and bool(problem.discrete_time) == spec["discrete"]
+            and len(problem.trajectory_constraints) == spec["ntraj"] and len(problem.timed_effects) == spec["ntil"]
+            and len(problem.timed_goals) == spec["ntg"]
+            and [type(a).__name__ for a in problem.actions] == [it[0] for it in items if it[0] in ACTION_CLS]
+            and len(problem.processes) == sum(it[0] == "Process" for it in items)
+            and len(problem.events) == sum(it[0] == "Event" for it in items))
+
+
+def build_maw(payload):
+    """MultiAgentProblem: agents ag0, ag1, …; fluent k goes to the environment if k % 3 == 0 else to agent k % nag, action k
+    to agent k % nag (k = position among the fluents / actions)"""
+    from collections import OrderedDict
+    nag, items = int(payload[1][1]), payload[2][1:]
+    env = Environment()
+    env.error_used_name = False
+    tm, em = env.type_manager, env.expression_manager
+    problem = MultiAgentProblem("prob", env)
+    agents = [Agent("ag%d" % k, problem) for k in range(nag)]
+    objs = [None] * len(items)
+    for i, it in enumerate(items):
+        if it[0] == "_UserType":
+            objs[i] = tm.UserType(it[1], None if it[2] == "-" else objs[int(it[2])])
+    for i, it in enumerate(items):
+        if it[0] == "Parameter":
+            objs[i] = Parameter(it[1], objs[int(it[2])], env)
+
+    def owned(i):
+        return OrderedDict((p[1], objs[int(p[2])]) for p in items if p[0] == "Parameter" and p[3] == str(i))
+    nf = na = 0
+    for i, it in enumerate(items):
+        c = it[0]
+        if c == "Fluent":
+            ty = tm.BoolType() if it[2] == "bool" else tm.IntType()
+            objs[i] = Fluent(it[1], ty, _signature=owned(i), environment=env)
+            dv = em.FALSE() if it[2] == "bool" else em.Int(0)
+            if nf % 3 == 0:
+                problem.ma_environment.add_fluent(objs[i], default_initial_value=dv)
+            else:
+                agents[nf % nag].add_fluent(objs[i], default_initial_value=dv)
+            nf += 1
+        elif c in ("InstantaneousAction", "DurativeAction"):
+            if c == "InstantaneousAction":
+                objs[i] = InstantaneousAction(it[1], _parameters=owned(i), _env=env)
+            else:
+                objs[i] = DurativeAction(it[1], _parameters=owned(i), _env=env)
+                objs[i].set_fixed_duration(1)
+            agents[na % nag].add_action(objs[i])
+            na += 1
+        elif c == "Object":
+            objs[i] = Object(it[1], objs[int(it[2])], env)
+            problem.add_object(objs[i])
+    for ag in agents:
+        problem.add_agent(ag)
     return problem, objs
 
 
@@ -426,6 +703,12 @@ def build_anml(payload):
         o = Object(n, types[int(t)], env)
         problem.add_object(o)
         objects.append(o)
+    if len(payload) > 5:
+        f0 = next((f for f in fluents if not f.signature), None)
+        for k in range(int(payload[5][2]) if f0 is not None else 0):
+            problem.add_timed_effect(GlobalStartTiming(5 * (k + 1)), em.FluentExp(f0), em.TRUE() if k % 2 == 0 else em.FALSE())
+        if payload[5][1] == "T":
+            problem.discrete_time = True
     return problem, types, fluents, actions, objects
 
 
@@ -464,9 +747,17 @@ def _idx(objs, x):
     return ["foreign", type(x).__name__]
 
 
+def write_text(w):
+    """get_domain + get_problem; None when the writer refuses the problem (timed goals are not PDDL)"""
+    try:
+        return w.get_domain() + "\n" + w.get_problem()
+    except UPProblemDefinitionError:
+        return None
+
+
 def run_pddl_ops(payload):
-    flags, items, ops = _flags(payload[1]), payload[4][1:], payload[5][1:]
-    problem, objs = build_pddl(flags, items)
+    spec, items, ops = _spec(payload[1]), payload[4][1:], payload[5][1:]
+    problem, objs = build_pddl(spec, items)
     w = PDDLWriter(problem)
     res = []
     for op in ops:
@@ -484,24 +775,34 @@ def run_pddl_ops(payload):
                 res.append(["none"])
     text = None
     if payload[6][1] == "T":
-        text = w.get_domain() + "\n" + w.get_problem()
+        text = write_text(w)
     return problem, objs, w, res, text
 
 
 def model_payload(payload):
-    """the `hier` input of the model ("a user type named object must be renamed") is read from the REAL problem:
-    has_hierarchical_typing() or more than one user type (Problem.user_types depends on how fluents, actions and
-    quantified variables mention types, which the payload does not pin)"""
-    if payload[0] != "pddl":
+    """two inputs of the model are read from the REAL problem: the `hier` flag ("a user type named object must be renamed":
+    has_hierarchical_typing() or more than one user type — Problem.user_types depends on how fluents, actions and quantified
+    variables mention types, which the payload does not pin) and the problem VIEW that PDDLWriter.__init__'s conditions look
+    at (class names of the problem and of its actions, lengths of processes / events / trajectory_constraints /
+    timed_effects / timed_goals, discrete_time); impl() checks that the real problem is the one the payload describes"""
+    if payload[0] not in ("pddl", "pddlw"):
         return payload
+    items = payload[4][1:] if payload[0] == "pddl" else payload[2][1:]
     try:
-        problem, objs = build_pddl(_flags(payload[1]), payload[4][1:])
+        problem, objs = build_pddl(_spec(payload[1]), items)
         real = problem.kind.has_hierarchical_typing() or len(problem.user_types) > 1
+        view = problem_view(problem)
     except Exception:
         return payload
     out = list(payload)
-    out[2] = B(real)
+    out[1] = view
+    if payload[0] == "pddl":
+        out[2] = B(real)
     return out
+
+
+def _optkw(w):
+    return ["optkw"] + sorted(w.pddl_keywords - _GENERAL0)
 
 
 def impl(payload):
@@ -516,14 +817,23 @@ def impl(payload):
         real_names = sorted(n for n in probe if problem.has_name(n))
         if real_names != sorted(set(payload[3][1:]) & probe) or any(not problem.has_name(n) for n in payload[3][1:]):
             return ["harness-names-mismatch", real_names]
+        if not view_matches(problem, _spec(payload[1]), items):
+            return ["harness-view-mismatch", problem_view(problem)]
         return [["hier", B(problem.kind.has_hierarchical_typing() or len(problem.user_types) > 1)], ["nkw", str(len(w.pddl_keywords))],
-                ["res"] + res,
+                _optkw(w), ["res"] + res,
                 ["otn"] + [[_idx(objs, k), nm(v)] for k, v in w.otn_renamings.items()],
                 ["nto"] + [[nm(k), _idx(objs, v)] for k, v in w.nto_renamings.items()]]
     if kind == "pddlw":
-        problem, objs = build_pddl(_flags(payload[1]), payload[2][1:])
+        problem, objs = build_pddl(_spec(payload[1]), payload[2][1:])
+        if not view_matches(problem, _spec(payload[1]), payload[2][1:]):
+            return ["harness-view-mismatch", problem_view(problem)]
         w = PDDLWriter(problem)
-        return [["nkw", str(len(w.pddl_keywords))],
+        return [["nkw", str(len(w.pddl_keywords))], _optkw(w),
+                ["base"] + [nm(pw._get_pddl_name(o, w.pddl_keywords)) for o in objs]]
+    if kind == "maw":
+        problem, objs = build_maw(payload)
+        w = mw.MAPDDLWriter(problem)
+        return [["nkw", str(len(w.pddl_keywords))], _optkw(w),
                 ["base"] + [nm(pw._get_pddl_name(o, w.pddl_keywords)) for o in objs]]
     if kind == "anml":
         problem, types, fluents, actions, objects = build_anml(payload)
@@ -545,7 +855,7 @@ def _changed(payload, ans):
     """pairs (original name, chosen name) of the named elements"""
     out = []
     kind = payload[0]
-    if isinstance(ans, list) and ans and ans[0] in ("error", "harness-names-mismatch"):
+    if isinstance(ans, list) and ans and ans[0] in ("error", "harness-names-mismatch", "harness-view-mismatch"):
         return out
     d = {x[0]: x[1:] for x in ans}
     if kind == "pddl":
@@ -553,7 +863,7 @@ def _changed(payload, ans):
         for k, v in d["otn"]:
             if k[0] == "i":
                 out.append((items[int(k[1])][1], v[1]))
-    elif kind == "pddlw":
+    elif kind in ("pddlw", "maw"):
         for it, v in zip(payload[2][1:], d["base"]):
             out.append((it[1], v[1]))
     else:
@@ -572,7 +882,7 @@ def _changed(payload, ans):
 
 def nontrivial(payload, ans):
     ch = _changed(payload, ans)
-    if payload[0] in ("pddl", "pddlw"):
+    if payload[0] in ("pddl", "pddlw", "maw"):
         return any(new is not None and new.lstrip("?") != old for old, new in ch)
     return any(new != old for old, new in ch)
 
@@ -580,9 +890,25 @@ def nontrivial(payload, ans):
 _COUNTER = re.compile(r"_[0-9]+$")
 
 
+def payload_frags(spec, items):
+    """the fragments of PDDL the written text of the described problem uses (the harness' reading, from the payload)"""
+    fr = set()
+    if any(it[0] == "DurativeAction" for it in items) or spec["ntil"] > 0:
+        fr.add("temporal")
+    if any(it[0] in TRANS_CLS for it in items):
+        fr.add("plus")
+    if spec["ntraj"] > 0:
+        fr.add("pddl3")
+    if spec["cls"] == "C":
+        fr.add("contingent")
+    if spec["cls"] == "H":
+        fr.add("hddl")
+    return fr
+
+
 def stats(payload, ans):
     t = [payload[0]]
-    if isinstance(ans, list) and ans and ans[0] in ("error", "harness-names-mismatch"):
+    if isinstance(ans, list) and ans and ans[0] in ("error", "harness-names-mismatch", "harness-view-mismatch"):
         return t + [ans[0]]
     ch = _changed(payload, ans)
     if any(new is not None and new.lstrip("?") != old for old, new in ch):
@@ -598,7 +924,45 @@ def stats(payload, ans):
         t.append("write" if payload[6][1] == "T" else "no-write")
         if payload[2] == "T":
             t.append("hierarchical")
-        t.append("flags-" + "".join(payload[1][1:]))
+    if payload[0] in ("pddl", "pddlw"):
+        spec = _spec(payload[1])
+        items = payload[4][1:] if payload[0] == "pddl" else payload[2][1:]
+        dur = any(it[0] == "DurativeAction" for it in items)
+        t.append("cls-" + spec["cls"])
+        new = spec["cls"] == "H" or any(it[0] == "SensingAction" for it in items)
+        for tag, on in (("discrete", spec["discrete"]), ("durative", dur), ("discrete+durative", spec["discrete"] and dur),
+                        ("discrete-no-durative", spec["discrete"] and not dur),
+                        ("continuous+durative", dur and not spec["discrete"]),
+                        ("timed-effects", spec["ntil"] > 0), ("timed-effects-only", spec["ntil"] > 0 and not dur),
+                        ("timed-goals", spec["ntg"] > 0),
+                        ("timed-goals-only", spec["ntg"] > 0 and spec["ntil"] == 0 and not dur),
+                        ("trajectory-constraints", spec["ntraj"] > 0),
+                        ("processes-events", any(it[0] in TRANS_CLS for it in items)),
+                        ("sensing-action", any(it[0] == "SensingAction" for it in items)),
+                        ("tasks", any(it[0] == "Task" for it in items)), ("methods", any(it[0] == "Method" for it in items))):
+            if on:
+                t.append(tag)
+        if new or spec["discrete"] or spec["ntil"] or spec["ntg"]:
+            t.append("new-shape")
+        fr = payload_frags(spec, items)
+        lows = set(it[1].lower() for it in items)
+        for f in FRAGS[:-1]:
+            if lows & set(FRAG_WORDS[f]):
+                t.append(("kwname-of-used-fragment:" if f in fr else "kwname-of-unused-fragment:") + f)
+                if f == "temporal" and (spec["discrete"] or (spec["ntil"] and not dur) or (spec["ntg"] and not dur and not spec["ntil"])):
+                    t.append("temporal-kwname-in-new-shape")
+    if payload[0] == "maw":
+        items = payload[2][1:]
+        lows = set(it[1].lower() for it in items)
+        t.append("maw-durative" if any(it[0] == "DurativeAction" for it in items) else "maw-no-durative")
+        for f in ("temporal", "pddl3"):
+            if lows & set(FRAG_WORDS[f]):
+                t.append("maw-kwname:" + f)
+    if payload[0] == "anml" and len(payload) > 5:
+        if payload[5][1] == "T":
+            t.append("anml-discrete")
+        if payload[5][2] != "0":
+            t.append("anml-timed-effects")
     return t
 
 
@@ -610,31 +974,58 @@ PDDL_NAME = re.compile(r"[a-zA-Z][a-zA-Z0-9_-]*")     # PDDL 3.1 BNF <name>
 ANML_IDENT = re.compile(r"[a-zA-Z][a-zA-Z0-9_]*")
 
 
-def _pddl_keywords(flags):
-    plus, pddl3, temporal, contingent = flags
-    kw = set(_GENERAL0)
-    if plus:
-        kw |= pw.PDDL_PLUS_KEYWORDS
-    if pddl3:
-        kw |= pw.PDDL3_KEYWORDS
-    if temporal:
-        kw |= pw.TEMPORAL_PDDL_KEYWORDS
-    if contingent:
-        kw |= pw.CONTINGENT_PDDL_KEYWORDS
+# the keyword tables as the module defines them at import time (a writer that aliases and grows one must not fool the oracle)
+_GENERAL0 = frozenset(pw.GENERAL_PDDL_KEYWORDS)
+LIB_TABLES = {"temporal": "TEMPORAL_PDDL_KEYWORDS", "plus": "PDDL_PLUS_KEYWORDS", "pddl3": "PDDL3_KEYWORDS",
+              "contingent": "CONTINGENT_PDDL_KEYWORDS", "hddl": "HDDL_KEYWORDS"}
+_TABLES0 = {f: frozenset(getattr(pw, n, ())) for f, n in LIB_TABLES.items()}
+
+
+def frag_keywords(f):
+    """the keywords of one fragment: the harness' own list (from the language) together with the library's table"""
+    return set(FRAG_WORDS[f]) | (_GENERAL0 if f == "general" else _TABLES0[f])
+
+
+def needed_frags(problem, text):
+    """which fragments of PDDL the text written for `problem` uses — decided from the problem's STRUCTURE (what the writer
+    has to write for it) and, when the text is at hand, from the constructs that occur in it; never from the writer's own
+    keyword selection, and never from the problem kind (a discrete-time problem is written like a continuous-time one)"""
+    t = text or ""
+    fr = set()
+    if (any(isinstance(a, DurativeAction) for a in problem.actions) or len(problem.timed_effects) > 0
+            or "(:durative-action" in t or re.search(r"\(at\s+[0-9]", t)):
+        fr.add("temporal")
+    if len(getattr(problem, "processes", ())) > 0 or len(getattr(problem, "events", ())) > 0 or "(:process" in t or "(:event" in t:
+        fr.add("plus")
+    if len(getattr(problem, "trajectory_constraints", ())) > 0 or "(:constraints" in t:
+        fr.add("pddl3")
+    if isinstance(problem, ContingentProblem) or any(isinstance(a, SensingAction) for a in problem.actions) or ":observe" in t:
+        fr.add("contingent")
+    if isinstance(problem, HierarchicalProblem) or "(:task" in t or "(:method" in t or "(:htn" in t:
+        fr.add("hddl")
+    return fr
+
+
+def needed_keywords(problem, text):
+    kw = frag_keywords("general")
+    for f in needed_frags(problem, text):
+        kw |= frag_keywords(f)
     return kw
 
 
-# the general set as the module defines it at import time (a writer that aliases and grows it must not fool the oracle)
-_GENERAL0 = frozenset(pw.GENERAL_PDDL_KEYWORDS)
+def colon_words(text):
+    """the `:word`s of the written text (section heads, requirement flags): keywords the text itself uses"""
+    return set(re.findall(r"(?:(?<=[\s(])|^):([a-z][a-z0-9-]*)", text.lower()))
 
 
 def _tokens(text):
     return set(re.split(r"[\s()]+", text))
 
 
-def _check_pddl_maps(w, objs, items, flags, text):
+def _check_pddl_maps(w, objs, items, problem, text):
     otn, nto = w.otn_renamings, w.nto_renamings
-    kw = _pddl_keywords(flags)
+    kw = needed_keywords(problem, text)
+    cw = colon_words(text) if text is not None else set()
     for item, name in otn.items():
         if name not in nto or not (nto[name] is item or nto[name] == item):
             return f"lookups not inverse: item named {name!r} is not what the name maps back to"
@@ -652,8 +1043,14 @@ def _check_pddl_maps(w, objs, items, flags, text):
             return f"parameter/variable name {name!r} does not start with ?"
         if PDDL_NAME.fullmatch(body) is None:
             return f"{name!r} is not a valid PDDL name"
-        if name.lower() in kw:
-            return f"{name!r} is a PDDL keyword"
+        if is_var:
+            # `?x` is never the keyword `x`; the one reserved variable is ?duration of a durative action
+            if name.lower() == "?duration" and "temporal" in needed_frags(problem, text):
+                return "a parameter is written as ?duration, the reserved duration variable of temporal PDDL"
+        elif body.lower() in kw:
+            return f"{name!r} is a PDDL keyword (of a fragment the written problem uses: {sorted(needed_frags(problem, text))})"
+        elif body.lower() in cw:
+            return f"{name!r} coincides with the keyword :{body.lower()} of the written text"
     for name, item in nto.items():
         if item not in otn or otn[item] != name:
             return f"lookups not inverse: name {name!r} maps to an item whose name is different"
@@ -665,8 +1062,8 @@ def _check_pddl_maps(w, objs, items, flags, text):
             continue
         if it[0] == "Parameter":
             g = ("param-of", it[3])
-        elif it[0] in ACTION_CLS + TRANS_CLS:
-            g = "action"
+        elif it[0] in ACTION_CLS + TRANS_CLS + ("Task",):
+            g = "action"        # subtasks refer to tasks and actions alike by name
         else:
             g = it[0]
         groups.setdefault(g, []).append(otn[o].lower())
@@ -697,21 +1094,64 @@ def oracle(payload):
                 o = objs[int(op[1])]
                 if w.otn_renamings.get(o) != r[1]:
                     return "a name returned by _get_mangled_name is not the recorded one (names not stable)"
-        return _check_pddl_maps(w, objs, payload[4][1:], _flags(payload[1]), text)
+        return _check_pddl_maps(w, objs, payload[4][1:], problem, text)
     if kind == "pddlw":
         items = payload[2][1:]
-        problem, objs = build_pddl(_flags(payload[1]), items)
+        problem, objs = build_pddl(_spec(payload[1]), items)
         w = PDDLWriter(problem)
         try:
-            text = w.get_domain() + "\n" + w.get_problem()
+            text = write_text(w)
         except AssertionError:
             return "the assert of _get_mangled_name failed (a chosen name was already in use)"
+        if text is None:
+            # refused (timed goals): nothing was written; the names the writer WOULD give must still be right
+            try:
+                for o in objs:
+                    w._get_mangled_name(o)
+            except AssertionError:
+                return "the assert of _get_mangled_name failed (a chosen name was already in use)"
         for i, it in enumerate(items):
             if it[0] in GLOBAL_CLS + TRANS_CLS and objs[i] not in w.otn_renamings:
                 if it[0] == "_UserType" and it[1] == "object":
                     continue
                 return f"{it[0]} {it[1]!r} was written but has no recorded name"
-        return _check_pddl_maps(w, objs, items, _flags(payload[1]), text)
+        return _check_pddl_maps(w, objs, items, problem, text)
+    if kind == "maw":
+        items = payload[2][1:]
+        problem, objs = build_maw(payload)
+        w = mw.MAPDDLWriter(problem)
+        try:
+            text = "\n".join(list(w.get_ma_domains().values()) + list(w.get_ma_problems().values()))
+        except AssertionError:
+            return "the assert of MAPDDLWriter._get_mangled_name failed (a chosen name was already in use)"
+        kw = frag_keywords("general")
+        if any(it[0] == "DurativeAction" for it in items) or "(:durative-action" in text:
+            kw |= frag_keywords("temporal")
+        cw = colon_words(text)
+        otn, nto = w.otn_renamings, w.nto_renamings
+        for item, name in otn.items():
+            if isinstance(item, Agent):
+                continue
+            try:
+                back = w.get_item_named(w.get_ma_pddl_name(item))
+                if not (back is item or back == item) or w.get_ma_pddl_name(w.get_item_named(name)) != name:
+                    return f"MA-PDDL lookups are not inverse for {name!r}"
+            except UPException as e:
+                return f"MA-PDDL lookup raised for a named item: {e}"
+            is_var = isinstance(item, (Parameter, Variable))
+            body = name[1:] if is_var and name.startswith("?") else name
+            if is_var and not name.startswith("?"):
+                return f"parameter/variable name {name!r} does not start with ?"
+            if PDDL_NAME.fullmatch(body) is None:
+                return f"{name!r} is not a valid PDDL name"
+            if is_var:
+                if name.lower() == "?duration" and any(it[0] == "DurativeAction" for it in items):
+                    return "a parameter is written as ?duration, the reserved duration variable of temporal PDDL"
+            elif body.lower() in kw:
+                return f"{name!r} is a PDDL keyword (MA-PDDL: general, or temporal with a durative action)"
+            elif body.lower() in cw:
+                return f"{name!r} coincides with the keyword :{body.lower()} of the written MA-PDDL"
+        return None
     if kind == "anml":
         problem, types, fluents, actions, objects = build_anml(payload)
         try:
@@ -751,7 +1191,7 @@ def oracle(payload):
 # ---------------------------------------------------------------------------------------------------------
 
 def _drop_item(payload, k):
-    """pddl / pddlw payload without item k (None if something refers to it)"""
+    """pddl / pddlw / maw payload without item k (None if something refers to it)"""
     pos = 4 if payload[0] == "pddl" else 2
     items = payload[pos][1:]
     for it in items:
@@ -761,6 +1201,18 @@ def _drop_item(payload, k):
             return None
         if it[0] == "Parameter" and it[3] == str(k):
             return None
+        if it[0] == "Method" and it[2] == str(k):
+            return None
+    if items[k][0] == "Parameter" and items[k][3] != "-":
+        # the first parameters of a method are the arguments of its task: neither side may lose one
+        o = int(items[k][3])
+        if items[o][0] == "Task" and any(it[0] == "Method" and it[2] == str(o) for it in items):
+            return None
+        if items[o][0] == "Method":
+            ntask = sum(1 for p in items if p[0] == "Parameter" and p[3] == items[o][2])
+            mine = [q for q, p in enumerate(items) if p[0] == "Parameter" and p[3] == str(o)]
+            if mine.index(k) < ntask:
+                return None
 
     def sh(s):
         return s if s == "-" else str(int(s) - 1 if int(s) > k else int(s))
@@ -771,19 +1223,21 @@ def _drop_item(payload, k):
         it = list(it)
         if it[0] == "_UserType":
             it[2] = sh(it[2])
-        elif it[0] in ("Object", "Variable"):
+        elif it[0] in ("Object", "Variable", "Method"):
             it[2] = sh(it[2])
         elif it[0] == "Parameter":
             it[2], it[3] = sh(it[2]), sh(it[3])
         new.append(it)
     out = list(payload)
     out[pos] = [payload[pos][0]] + new
-    flags = payload[1]
-    plus = any(it[0] in TRANS_CLS for it in new)
-    temporal = any(it[0] == "DurativeAction" for it in new)
-    has0 = any(it[0] == "Fluent" and it[2] == "bool" and not any(p[0] == "Parameter" and p[3] == str(i) for p in new)
-               for i, it in enumerate(new))
-    out[1] = ["flags", B(plus), B(flags[2] == "T" and has0), B(temporal), flags[4]]
+    if payload[0] in ("pddl", "pddlw"):
+        if payload[1][0] == "flags":
+            flags = payload[1]
+            plus = any(it[0] in TRANS_CLS for it in new)
+            temporal = any(it[0] == "DurativeAction" for it in new)
+            out[1] = ["flags", B(plus), B(flags[2] == "T" and has_nullary_bool(new)), B(temporal), flags[4]]
+        else:
+            out[1] = spec_sexp(fit_spec(_spec(payload[1]), new))
     if payload[0] == "pddl":
         ops = []
         for op in payload[5][1:]:
@@ -800,15 +1254,37 @@ def _drop_item(payload, k):
     return out if new else None
 
 
+def _simpler_specs(payload):
+    """the same items in a plainer problem (one dimension at a time)"""
+    if payload[0] not in ("pddl", "pddlw") or payload[1][0] != "prob":
+        return
+    spec = _spec(payload[1])
+    items = payload[4][1:] if payload[0] == "pddl" else payload[2][1:]
+    cands = []
+    if spec["discrete"]:
+        cands.append(dict(spec, discrete=False))
+    for key in ("ntg", "ntil", "ntraj"):
+        if spec[key] > 0:
+            cands.append(dict(spec, **{key: spec[key] - 1}))
+    if spec["cls"] != "P" and not any(it[0] in HTN_CLS + ("SensingAction",) for it in items):
+        cands.append(dict(spec, cls="P"))
+    for c in cands:
+        out = list(payload)
+        out[1] = spec_sexp(c)
+        yield out
+
+
 def shrink(payload):
     kind = payload[0]
-    if kind in ("pddl", "pddlw"):
+    if kind in ("pddl", "pddlw", "maw"):
         pos = 4 if kind == "pddl" else 2
         n = len(payload[pos]) - 1
         for k in reversed(range(n)):
             c = _drop_item(payload, k)
             if c is not None:
                 yield c
+        for c in _simpler_specs(payload):
+            yield c
         if kind == "pddl":
             ops = payload[5][1:]
             for j in range(len(ops)):
@@ -822,6 +1298,10 @@ def shrink(payload):
                 out[6] = ["write", "F"]
                 yield out
     else:
+        if len(payload) > 5 and (payload[5][1] == "T" or payload[5][2] != "0"):
+            out = list(payload)
+            out[5] = ["opts", "F", "0"]
+            yield out
         for sec in (4, 3, 2):
             xs = payload[sec][1:]
             for j in range(len(xs)):
@@ -850,16 +1330,23 @@ def shrink(payload):
 
 
 MANIFEST = {
-    "level_text": ("Lean 4 theorems (Props/C38.lean) prove for EVERY sequence of PDDLWriter._get_mangled_name / _get_anml_name "
-                   "calls, every problem and all ASCII names: the two PDDL lookups are mutually inverse, names of distinct "
+    "level_text": ("Lean 4 theorems (Props/C38.lean, Props/C38Select.lean) prove for EVERY sequence of PDDLWriter._get_mangled_name / "
+                   "_get_anml_name calls, every problem and all ASCII names: the two PDDL lookups are mutually inverse, names of distinct "
                    "elements differ (also case-insensitively), every name is a PDDL <name> / ANML identifier, none is a keyword, "
-                   "names never change once given, the writer's assert cannot fail, both loops terminate; table-dependent side "
-                   "conditions are re-decided by the kernel over keyword sets, INITIAL_LETTER maps and regex character classes "
-                   "regenerated from /repo on every run. The hand-written functions are tied to the code by a differential "
-                   "correspondence check (chosen names, lookups, final maps) plus a direct oracle of the property on the real writers."),
+                   "names never change once given, the writer's assert cannot fail, both loops terminate; and (C38Select) for every "
+                   "problem view — any problem class, any actions, any number of processes, events, trajectory constraints, timed "
+                   "effects, timed goals, continuous or discrete time — the keyword set PDDLWriter.__init__ selects contains the "
+                   "keywords of every PDDL fragment the written text uses (select_adequate, repo_problem_names; MA-PDDL: "
+                   "ma_select_adequate), and every `:word` the writer can emit is in a keyword table. Table-dependent side "
+                   "conditions are re-decided by the kernel over keyword sets, the selection CONDITIONS of __init__, INITIAL_LETTER "
+                   "maps and regex character classes regenerated from /repo on every run. The hand-written functions are tied to the "
+                   "code by a differential correspondence check (selected keywords, chosen names, lookups, final maps) over problems "
+                   "on both sides of every selection condition, plus a direct oracle of the property on the real writers that decides "
+                   "the applicable keywords from the problem's structure and the written text."),
     "level_note": ("Trusted: Lean kernel; axioms propext, Classical.choice, Quot.sound; harness/translate_C38.py; the correspondence "
-                   "harness. Modelled not verified: Python dict/re/str.lower on ASCII, Problem.has_name, ProblemKind. ASCII "
-                   "identifiers only; ANML numeric type expressions and quantifier variables are outside the traversal mirror."),
+                   "harness. Modelled not verified: Python dict/re/str.lower on ASCII, isinstance, Problem.has_name, ProblemKind. ASCII "
+                   "identifiers only; ANML numeric type expressions and quantifier variables are outside the traversal mirror; MA-PDDL "
+                   "agent names and HDDL subtask identifiers (written verbatim) are outside the renaming."),
     "technique": "Lean 4 proof over regenerated tables + model/code correspondence",
     "design_ref": "DESIGN.md §5 C38",
 }
